@@ -17,6 +17,7 @@ Traces == JsonDeserialize(IOEnv.TRACE_FILE)
 ASSUME Len(Traces) > 0
 Slack == 3
 
+CONSTANT Skip
 VARIABLES tid, l, bad,
   phase,       \* client object id -> "connected" | "gone"           (absent = never connected)
   objAt,       \* address id -> object id currently connected there
@@ -58,7 +59,7 @@ A_noamplify(ev) == ev.a \notin everConn => Get(bout, ev.a, 0) + ev.n <= Get(bin,
 \* C03: once a key is agreed everything the server emits is AES-GCM under that connection's key - except the signed server hello,
 \* which travels alone in a CRC datagram (sealed: 1 opens under the key, 2 plain CRC datagram, 0 neither)
 A_sealed(ev) == IF ev.ptype = 2 THEN ev.sealed = 2 /\ ev.count = 1 ELSE ev.sealed = 1
-A_notblocked(ev) == ev.a \notin {P.blocked[i] : i \in DOMAIN P.blocked}                      \* C11: no reply to a block-listed address
+A_notblocked(ev) == ev.blocked = 0          \* (the harness reads the block list configured on the context at that moment: it may be set or replaced at any time)                      \* C11: no reply to a block-listed address
 \* ---- handler events ---------------------------------------------------------------------------------
 L_thread(ev) == thread = 0 \/ ev.tid = thread                                                \* C10: all handler events on one thread
 L_connect(ev) == ev.what = "connect" =>
@@ -107,7 +108,7 @@ T_connfail(ev) == (ev.status = 4 /\ ev.c \in DOMAIN cstate /\ cstate[ev.c].statu
 L_alldisc(ev) == \A o \in DOMAIN phase : phase[o] = "gone"                                    \* C10: shutdown disconnects every connected client
 L_shutdown(ev) == shutdownSeen /\ ev.alive = 0
 
-Clauses ==
+RawClauses ==
   IF l > Len(Tr) THEN {}
   ELSE LET ev == Ev IN
     IF ev.ev = "rx" THEN {c \in {"A_blocked", "A_queued"} : ~CASE c = "A_blocked" -> A_blocked(ev) [] c = "A_queued" -> A_queued(ev)}
@@ -126,6 +127,8 @@ Clauses ==
       {c \in {"T_cliraise", "T_clidropped", "T_connfail"} : ~CASE c = "T_cliraise" -> T_cliraise(ev) [] c = "T_clidropped" -> T_clidropped(ev) [] c = "T_connfail" -> T_connfail(ev)}
     ELSE IF ev.ev = "end" THEN {c \in {"L_alldisc", "L_shutdown"} : ~CASE c = "L_alldisc" -> L_alldisc(ev) [] c = "L_shutdown" -> L_shutdown(ev)}
     ELSE {}
+\* Skip: clause names left out of the verdict (empty in every first pass; see Trace_Conn!Skip)
+Clauses == RawClauses \ Skip
 
 Diag == [tid |-> tid, l |-> l, failing |-> IF bad # {} THEN bad ELSE Clauses, ev |-> IF l <= Len(Tr) THEN Ev ELSE <<>>,
          phase |-> phase, objAt |-> objAt, tokens |-> tokens, proved |-> proved, lastHeard |-> lastHeard, lastTx |-> lastTx,
